@@ -22,6 +22,8 @@ The spaces are finite tables and are enumerated completely:
   mathistory every class x all short histories of composition mutators / instantiate / duplicate:
              instances never share mutable state (see the part's header); run as a second phase.
 
+  dirhistory short histories of changeLabel on a few nuclides: lookups stay truthful, materials still build.
+
 A *case* names the part (and the material / the history); ``evaluate(case)`` re-runs that part.
 """
 import math
@@ -762,8 +764,125 @@ def _eval_mathistory(case):
 
 
 # ---------------------------------------------------------------------------------------------
+# part: directory histories - the directory's public mutator (changeLabel) leaves it consistent
+#
+# Operations: relabel one of a few nuclides (ones materials use, a natural element, a lumped one) to
+# a label nothing else carries, or give it its original label back.  In EVERY reached state: every
+# identifier a nuclide HAS resolves to it; no table key resolves to a nuclide that never carried it
+# (a former label may keep resolving to its former owner); every material class can still be
+# instantiated and observes exactly what it observed before.  Everything is put back afterwards.
 
-_PARTS = {"directory": _eval_directory, "elements": _eval_elements, "burnchain": _eval_burnchain, "material": _eval_material, "mathistory": _eval_mathistory}
+RELABEL_TARGETS = ("U235", "U238", "FE", "PU239", "LFP38")
+
+
+def _lookup_identity(nb, former, vs, case, what):
+    """every identifier a nuclide has resolves to it; stale keys resolve to their former owner only"""
+    tables = _tables(nb)
+    n = 0
+    owners = {k: {} for k in ID_KINDS}
+    for nuc in nb.instances:
+        for kind, ident in _ids_of(nuc, nb).items():
+            n += 1
+            owners[kind].setdefault(ident, []).append(nuc)
+            got = tables[kind].get(ident)
+            if got is not nuc and not (got is not None and _ids_of(got, nb).get(kind) == ident):
+                _v(vs, "c19/lookup-%s-after-relabel" % kind, "%s: %s identifier %r of %s resolves to %r" % (what, kind, ident, nuc.name, getattr(got, "name", got)), case)
+    for kind in ID_KINDS:
+        if kind == "mcc3" and tables["mcc3"] is tables["mcc3-VII.1"]:
+            continue
+        for key, obj in tables[kind].items():
+            n += 1
+            if any(o is obj for o in owners[kind].get(key, ())) or ALIASES.get((kind, key)) == obj.name:
+                continue
+            if kind == "label" and former.get(key) is obj:
+                continue  # a former label still reaching the nuclide that carried it
+            _v(vs, "c19/table-stale-key-%s-after-relabel" % kind, "%s: %s table key %r resolves to %s, which never carried it" % (what, kind, key, obj.name), case)
+    return n
+
+
+def _eval_dirhistory(case):
+    import itertools
+
+    from armi.nucDirectory import elements
+    from armi.nucDirectory import nuclideBases as nb
+
+    depth = case["depth"]
+    vs = []
+    st = {"histories": 0, "transitions": 0, "states": 0, "lookups": 0, "material_instantiations": 0}
+    before = _tables_digest(nb, elements)
+    targets = [t for t in RELABEL_TARGETS if t in nb.byName]
+    orig = {t: nb.byName[t].label for t in targets}
+    new = {}
+    for i, t in enumerate(targets):
+        cand = "q%d%s" % (i, t[:1].lower())
+        if cand in nb.byLabel:
+            raise RuntimeError("scratch label %r already exists" % cand)
+        new[t] = cand
+    ops = [["relabel", t] for t in targets] + [["restore", t] for t in targets]
+    hists = [list(case["hist"])] if "hist" in case else [list(h) for L in range(depth + 1) for h in itertools.product(ops, repeat=L)]
+    # reference observation of every material class, before anything is touched
+    names = [n for n, _ in matlib.discover()]
+    refobs = {}
+    for name in names:
+        lo, hi, _, _ = matlib.stated_range_C(name, "pseudoDensity")
+        refobs[name] = (0.5 * (lo + hi), _mat_obs(matlib.cls_of(name)(), 0.5 * (lo + hi)))
+    seen = set()
+    try:
+        for hist in hists:
+            st["histories"] += 1
+            former = {}
+            for k in range(len(hist) + 1):
+                if k > 0:
+                    op, t = hist[k - 1]
+                    nuc = nb.byName[t]
+                    former[nuc.label] = nuc
+                    nb.changeLabel(nuc, new[t] if op == "relabel" else orig[t])
+                    st["transitions"] += 1
+                state = tuple(nb.byName[t].label for t in targets)
+                if k < len(hist) and k > 0:
+                    continue  # intermediate states are the end states of shorter histories
+                if (state, tuple(sorted(former))) in seen:
+                    continue
+                seen.add((state, tuple(sorted(former))))
+                cc = {"part": "dirhistory", "depth": depth, "hist": hist[:k]}
+                what = "after %s" % (hist[:k] or "nothing")
+                nv = len(vs)
+                st["lookups"] += _lookup_identity(nb, former, vs, cc, what)
+                for name in names:
+                    st["material_instantiations"] += 1
+                    Tp, ro = refobs[name]
+                    try:
+                        d = _obs_delta(ro, _mat_obs(matlib.cls_of(name)(), Tp))
+                    except Exception as e:  # noqa: BLE001
+                        d = "instantiation raised %r" % (e,)
+                    if d:
+                        _v(vs, "c19/material-after-relabel/%s" % name, "%s (labels of %s now %s): %s() is no longer the nominal material: %s" % (what, targets, list(state), name, d), cc)
+                if len(vs) > nv:
+                    raise StopIteration
+            # put the labels back before the next history (public API), scratch keys removed below
+            for t in targets:
+                if nb.byName[t].label != orig[t]:
+                    nb.changeLabel(nb.byName[t], orig[t])
+            for lab in new.values():
+                nb.byLabel.pop(lab, None)
+    except StopIteration:
+        pass
+    finally:
+        for t in targets:
+            nuc = nb.byName[t]
+            nuc.label = orig[t]
+            nb.byLabel[orig[t]] = nuc
+        for lab in new.values():
+            nb.byLabel.pop(lab, None)
+    st["states"] = len(seen)
+    if _tables_digest(nb, elements) != before and not vs:
+        _v(vs, "c19/directory-not-restored", "after giving every relabelled nuclide its label back (and dropping the scratch labels) the directory tables differ from the initial ones", {"part": "dirhistory", "depth": depth})
+    return vs, st
+
+
+# ---------------------------------------------------------------------------------------------
+
+_PARTS = {"directory": _eval_directory, "elements": _eval_elements, "burnchain": _eval_burnchain, "material": _eval_material, "mathistory": _eval_mathistory, "dirhistory": _eval_dirhistory}
 
 
 def _evaluate_counted(case):
@@ -790,7 +909,14 @@ def run(ctx):
     # defect it is looking for would pollute class-level state of the (long-lived) worker
     depth = 3 if ctx.quick else 4
     hits = ctx.order([{"part": "mathistory", "name": name, "depth": depth} for name, _ in matlib.discover()])
-    hres = core.pmap(MOD, "_evaluate_counted", hits, chunksize=1)
+    # the directory history (relabelling) goes first and alone in its worker slot: it restores what it touches
+    ddepth = 2 if ctx.quick else 3
+    dres = core.pmap(MOD, "_evaluate_counted", [{"part": "dirhistory", "depth": ddepth}] + hits, chunksize=1)
+    (dvs, dst), hres = dres[0], dres[1:]
+    ctx.add_violations(dvs)
+    for k, v in dst.items():
+        ctx.count("directory_history_" + k, v)
+    ctx.coverage.update(directory_history_depth=ddepth, directory_history_states=dst["states"], directory_history_transitions=dst["transitions"], directory_history_relabelled=list(RELABEL_TARGETS))
     hs = {"histories": 0, "transitions": 0, "states": 0, "refusals": 0, "probes": 0}
     hops = {}
     for it, (vs, st) in zip(hits, hres):
@@ -837,8 +963,8 @@ def run(ctx):
             ctx.count("material_distinct_property_values", st["distinct_values"])
             if st["ranges"]:
                 ranges[it["name"]] = st["ranges"]
-    ev += hs["probes"]
-    nontrivial += hs["states"]
+    ev += hs["probes"] + dst["lookups"] + dst["material_instantiations"]
+    nontrivial += hs["states"] + dst["states"]
     ctx.coverage.update(
         material_history_depth=depth,
         material_history_states=hs["states"],
@@ -863,5 +989,6 @@ def run(ctx):
         "identifier encoders for name/label/MCNP/AAAZZZS are written here from the documented rules; MC2 identifiers are table data compared with an independent parse of mcc-nuclides.yaml",
         "abstract bases (%s), Custom and Void are only instantiated: they are empty by definition" % sorted(matlib.ABSTRACT),
         "data files are parsed independently with str.split / ruamel safe loader (trusted)",
+        "directory mutators: all histories of bounded length over {changeLabel to a fresh label, changeLabel back} on %s; after each, lookup identity of every identifier, no key reaching a nuclide that never carried it, every material class re-instantiated; label collisions (relabelling onto an existing label) and other mutators (addGlobalNuclide, destroyGlobalNuclides, factory) are not explored" % (RELABEL_TARGETS,),
         "material instances share no mutable state: all histories of bounded length over {instantiate, setMassFrac existing/new, removeNucMassFrac, clearMassFrac, direct massFrac item assignment, adjustMassFrac, applyInputParams(), setDefaultMassFracs, duplicate} on every class; a mutator that raises counts as refused; longer histories and attributes other than massFrac/refDens/theoreticalDensityFrac/densities at one probe temperature are not observed",
     ]
